@@ -25,10 +25,16 @@ tvars == <<vars, l>>
 
 SeqToSet(q) == {q[i] : i \in 1..Len(q)}
 
-TabMatches(o, t) == \A s \in Svcs : /\ o[s].in = t[s].in /\ o[s].cfg = t[s].cfg /\ o[s].nil = t[s].nil
-                                    /\ o[s].eps = Live(t[s])
-ProcsMatch(o, p) == \A s \in Svcs : /\ o[s].on = p[s].on /\ o[s].cfg = p[s].cfg
-                                    /\ SeqToSet(o[s].hosts) = p[s].hosts
+\* a history only reports the names it uses; every other service / key must be absent in the model as well
+TabMatches(o, t) == \A s \in Svcs : IF s \in DOMAIN o
+                                    THEN /\ o[s].in = t[s].in /\ o[s].cfg = t[s].cfg /\ o[s].nil = t[s].nil
+                                         /\ o[s].eps = Live(t[s])
+                                    ELSE ~t[s].in
+ProcsMatch(o, p) == /\ \A s \in Keys : IF s \in DOMAIN o
+                                        THEN /\ o[s].on = p[s].on /\ o[s].cfg = p[s].cfg
+                                             /\ SeqToSet(o[s].hosts) = p[s].hosts
+                                        ELSE ~p[s].on
+                    /\ \A s \in DOMAIN o : s \in Keys \/ ~o[s].on
 EvtMatches(o, e, t) == /\ o.t = e.t /\ o.s = e.s /\ o.cfg = e.cfg
                        /\ o.eps = View(e, t)
                        /\ SeqToSet(o.add) = e.add /\ SeqToSet(o.rem) = e.rem
@@ -57,7 +63,7 @@ CtlStep(e) ==
 Quiet(e) ==
   /\ e.ev = "quiet"
   /\ Quiescent
-  /\ e.conv = (\A s \in Svcs : ConvergedSvc(s))
+  /\ e.conv = (\A s \in Keys : ConvergedSvc(s))
   /\ UNCHANGED vars
 
 Reset(e) ==
@@ -65,7 +71,7 @@ Reset(e) ==
   /\ tab' = [s \in Svcs |-> IF s \in SeqToSet(e.static) THEN StaticSw ELSE NoSw]
   /\ chan' = [i \in 1..Len(e.static) |-> AddEvtOf(e.static[i], StaticSw)]
   /\ pend' = <<>>
-  /\ procs' = [s \in Svcs |-> NoProc]
+  /\ procs' = [k \in Keys |-> NoProc]
   /\ nupd' = 0
 
 TraceNext ==
